@@ -104,7 +104,8 @@ P = {
     "C12": ("proof",
             "Theorems tables_are_classes, swar_*_kernel, simd_kernels, scanner_exact (Thm/C12.v) over the kernels and tables TRANSLATED from "
             "/repo on every run: every backend (SWAR any word width, SSE4.2, AVX2, NEON, runtime dispatch) leaves the cursor at exactly the "
-            "first out-of-class byte for every buffer. PARTIAL: NEON is tied by translation only (not executable on this host).",
+            "first out-of-class byte for every buffer; loop_shells_as_translated and swar_helpers_as_translated: the scanner loop shells and the "
+            "helpers match_tail / match_block / offsetnz, translated statement by statement, are the functions those theorems speak about. PARTIAL: NEON is tied by translation only (not executable on this host).",
             "Coq proof over translated kernels (256-sweeps lifted by induction; borrow-chain lemma), + native exhaustive sweeps"),
     "C13": ("proof",
             "Theorems backend_independent, profile_independent, cfg_exactly_one_provider (all 64 cfg environments, translated lattice), "
@@ -135,7 +136,7 @@ P = {
     "C15": ("proof",
             "Theorems request_options_conservative, response_options_conservative (with the stated reason-stripping exception made precise), "
             "request_ignores_response_options, response_ignores_request_options (Thm/C15.v).",
-            "Coq proof over the reference parsers + refinement, + 128-config metamorphic runs"),
+            "Coq proof over the reference parsers + refinement, + 128-config metamorphic runs through both configured entry points"),
     "C16": ("proof",
             "Theorems request/response_entries_agree, parse_headers_agrees (position independence of the header reference), "
             "request/response_header_part (Thm/C16.v); with_config_wrappers_as_translated: the two parse_with_config wrappers "
@@ -151,7 +152,7 @@ P = {
     "C18": ("proof",
             "Theorems request/response_history_independent, reuse_equals_fresh (Thm/C18.v): status, and the whole value on Complete, are "
             "functions of (entry, config, buffer, capacity) for any prior value -- hence for any history of calls.",
-            "Coq proof (corollary of the refinement theorems), + history-vs-fresh differential runs"),
+            "Coq proof (corollary of the refinement theorems), + history-vs-fresh and recycled-buffer differential runs"),
 }
 
 DEFAULT = ("exploration",
